@@ -37,6 +37,11 @@ type RpcMultiplexer struct {
 	mutex         sync.Mutex
 	streamCounter uint64
 	rErr          error
+	// rErrSeen mirrors rErr for readErrorIfDone, which must not wait for the
+	// mutex: handleResponse holds it while a call's queue is full, and a call
+	// whose write has just failed asks for the read error before it can tear
+	// itself down (which is what releases handleResponse).
+	rErrSeen atomic.Pointer[error]
 
 	codec encoding.CodecV2
 }
@@ -71,6 +76,7 @@ func (rm *RpcMultiplexer) closeError(err error) {
 
 	if err != nil {
 		rm.rErr = err
+		rm.rErrSeen.Store(&err)
 		for id, reg := range rm.handlers {
 			close(reg.ch)
 			delete(rm.handlers, id)
@@ -261,8 +267,8 @@ func (rm *RpcMultiplexer) unregisterHandler(id uint64, reg *registration) {
 }
 
 func (rm *RpcMultiplexer) readErrorIfDone() error {
-	rm.mutex.Lock()
-	defer rm.mutex.Unlock()
-
-	return rm.rErr
+	if err := rm.rErrSeen.Load(); err != nil {
+		return *err
+	}
+	return nil
 }
